@@ -91,3 +91,51 @@ Example C08_boundary_nonvacuous :
   @lookup_fraction NumR 1 [0; 1]%Z [1; 0] = Ok 0 /\ @lookup_fraction NumR 1 [1; 0]%Z [0; 1] = Ok 0 /\
   @lookup_fraction NumR 0 [0; 1]%Z [1; 0] = Ok 1 /\ @lookup_fraction NumR 0 [1; 0]%Z [0; 1] = Ok 1.
 Proof. exact C08_boundary_nonvacuous_proof. Qed.
+
+(* ---- round 5: pydrex.update_all as a theorem about the bulk model (Model_minerals.update_all / bulk_y0, tied
+   to the source by Inst_minerals_drv.update_all_inst_1_2 / _1_3).  A mineral is paired with the vector its
+   integrator ends with; that this vector belongs to the mineral and not to its position in the list is what
+   C08_bulk_start_vectors_own says: the integrator's problem instance is a function of the caller's F and the
+   mineral's own last snapshot ---------------------------------------------------------------------------- *)
+From PV Require Import Proofs_driver.
+
+(* every mineral's new history is its OWN single update; the value of the call is the F of the last mineral *)
+Theorem C08_bulk_each_mineral_own_update : forall n chi (ms : list (@history NumR * list R)),
+  bulk_pairs n chi ms
+  = (match last_pair ms with
+     | None => Err OtherError
+     | Some (h, y) => Ok (fst (@update NumR n chi (@last_snapshot NumR h) y))
+     end,
+     map (fun m => step n chi (fst m) (Ok (snd m))) ms).
+Proof. exact bulk_pairs_spec. Qed.
+
+(* order independence: another order of the mineral list permutes the resulting histories in the same way *)
+Theorem C08_bulk_order_independent : forall n chi (ms ms' : list (@history NumR * list R)),
+  Permutation ms ms' -> Permutation (combine (map fst ms) (snd (bulk_pairs n chi ms)))
+                                    (combine (map fst ms') (snd (bulk_pairs n chi ms'))).
+Proof. exact bulk_order_independent. Qed.
+
+(* interleaving independence: one bulk update of ms1 ++ ms2 = separate bulk updates of ms1 and of ms2 *)
+Theorem C08_bulk_split : forall n chi (ms1 ms2 : list (@history NumR * list R)),
+  snd (bulk_pairs n chi (ms1 ++ ms2)) = snd (bulk_pairs n chi ms1) ++ snd (bulk_pairs n chi ms2).
+Proof. exact bulk_split. Qed.
+
+(* the start vector of mineral i: the caller's F and mineral i's own last snapshot, whatever the other minerals *)
+Theorem C08_bulk_start_vectors_own : forall (Fd : list R) (hs : list (@history NumR)) i (d : @history NumR),
+  (i < length hs)%nat -> nth i (@bulk_y0 NumR Fd hs) [] = @y_start NumR Fd (@last_snapshot NumR (nth i hs d)).
+Proof. exact bulk_y0_own. Qed.
+Theorem C08_bulk_start_vectors_permute : forall (Fd : list R) (hs hs' : list (@history NumR)),
+  Permutation hs hs' -> Permutation (@bulk_y0 NumR Fd hs) (@bulk_y0 NumR Fd hs').
+Proof. exact bulk_y0_perm. Qed.
+
+Example C08_bulk_nonvacuous :
+  Permutation [([snap_ex], id9); (([] : @history NumR), ([] : list R))] [(([] : @history NumR), ([] : list R)); ([snap_ex], id9)].
+Proof. exact bulk_perm_nonvacuous_proof. Qed.
+
+(* any number of update_all calls on an assemblage (bulk_run = fold_left over the calls; ys = the vectors the K integrators
+   of one call end with): mineral i ends with the history it would have had ALONE, updated with its own vectors *)
+Theorem C08_bulk_histories_independent : forall n chi (yss : list (list (list R))) (hs : list (@history NumR)) i
+    (d : @history NumR) (dy : list R),
+  Forall (fun ys => length ys = length hs) yss -> (i < length hs)%nat ->
+  nth i (bulk_run n chi hs yss) d = run n chi (nth i hs d) (map (fun ys => Ok (nth i ys dy)) yss).
+Proof. exact bulk_run_each. Qed.
